@@ -96,6 +96,9 @@ def build_traces(path, tier, seed):
         nmin = int(2 * max(dt, target) / dt) + 2
         n = nmin + int(rng.integers(0, 60)) if i % 2 else gen.length(rng, nmin, max(nmin + 1, 1500))
         x, shape = gen.record(rng, n)
+        if i % 4 == 1:
+            x = x + (2.0 + 3.0 * float(np.max(np.abs(x)))) * (-1 if i % 8 == 1 else 1)     # one-signed record: 0 is outside its range
+            shape += "+offset"
         even = bool(i % 3 == 0)
         raised, ndt, y, ondt, same = False, 0.0, [], 0.0, False
         try:
